@@ -139,6 +139,21 @@ Theorem C10_history_cap_promises_example :
            (worlds_before ex_cfg ex_ops init_world) (run_hist ex_cfg ex_ops init_world).
 Proof. exact ex_cap_promises. Qed.
 
+(** a reserve / reserve_exact whose result would need more bytes than any allocation can have (not representable, or no valid Layout; on the relocating test backend: more than its allocator serves) panics - with the overflow / layout panic the crate documents - BEFORE the backend is asked to move anything: the vector, its capacity and its storage are untouched (inside histories: `WorldSpec.sp_capacity`, `exec_capacity`) *)
+Theorem C10_oversized_request_refused :
+  forall (c : cfg) (v : vec) (u : uw) (xs : list N) (n : N),
+         cfg_wf c ->
+         Rep c v xs ->
+         resizable_backend (vbk v) ->
+         c_sz c * vcap v <= alloc_limit ->
+         vlen v + n <= usize_max ->
+         layout_limit c (vbk v) < c_sz c * (vlen v + n) ->
+         let p := if usize_max <? c_sz c * (vlen v + n) then POverflow else PLayout in
+         exists u1 u2 : uw,
+           reserve c n (v, u) = Panic p (v, u1) /\
+           reserve_exact c n (v, u) = Panic p (v, u2) /\ same_user u u1 /\ same_user u u2.
+Proof. exact reserve_layout_panic. Qed.
+
 (* ---- end histories ---- *)
 Print Assumptions C10_reserve_noop.
 Print Assumptions C10_reserve_grows.
@@ -153,3 +168,4 @@ Print Assumptions C10_history_len_le_cap.
 Print Assumptions C10_capacity_call_promise.
 Print Assumptions C10_history_cap_promises.
 Print Assumptions C10_history_cap_promises_example.
+Print Assumptions C10_oversized_request_refused.
